@@ -103,13 +103,13 @@ func runC03(c *eng.Ctx, thorough bool) {
 			c.Cut(f, "ret.Allowed = true (policy decision)", other, eng.Or(eng.G(f, `^0 < φpermissions\{.*\}\.MaxWrappingTTL$`, false), eng.G(f, `^req\.WrapInfo == nil$`, false)), asm)
 			// a matching rule was found
 			c.Cut(f, "ret.Allowed = true (policy decision)", other, eng.Or(
-				eng.G(f, `go-radix\.Tree\)\.Get\(\)#1$`, true),
+				eng.G(f, c03RadixGet+`\(\)#1$`, true),
 				eng.G(f, `CheckAllowedFromNonExactPaths\(\) == nil$`, false)), asm)
 		}
 		// ---------- C03.5 namespace qualification of the looked-up path
 		c.Clause("R5", "C03.5")
-		for _, g := range eng.Calls(f, `go-radix\.Tree\)\.Get$`) {
-			s := eng.ExprDeep(g.Common().Args[1])
+		for _, g := range eng.Calls(f, c03RadixGet+`$`) {
+			s := eng.ExprDeep(c03LastArg(g))
 			if strings.Contains(s, "FromContext") && strings.Contains(s, ".Path") && strings.Contains(s, "req.Path") {
 				c.OK(f, "path looked up is namespace-qualified", g.Pos(), s)
 			} else {
@@ -118,7 +118,7 @@ func runC03(c *eng.Ctx, thorough bool) {
 		}
 		// ---------- C03.4 exact before non-exact
 		c.Clause("R3", "C03.4")
-		c.Before(f, "exact rule lookup", instrsOf(eng.Calls(f, `go-radix\.Tree\)\.Get$`)), "non-exact lookup", instrsOf(eng.Calls(f, `CheckAllowedFromNonExactPaths$`)))
+		c.Before(f, "exact rule lookup", instrsOf(eng.Calls(f, c03RadixGet+`$`)), "non-exact lookup", instrsOf(eng.Calls(f, `CheckAllowedFromNonExactPaths$`)))
 		// ---------- C03.2 operation table
 		c.Clause("R7", "C03.2")
 		c03OpTable(c, f)
@@ -503,6 +503,15 @@ func c03CapNames(c *eng.Ctx) {
 	}
 }
 
+// c03RadixGet matches a radix-tree Get called directly or through a bound
+// method value (get := tree.Get; get(k)); the key is the last argument in both.
+const c03RadixGet = `go-radix\.Tree\)\.Get(\$bound)?`
+
+func c03LastArg(cl ssa.CallInstruction) ssa.Value {
+	a := cl.Common().Args
+	return a[len(a)-1]
+}
+
 func stripNot(v ssa.Value) ssa.Value {
 	for {
 		u, ok := v.(*ssa.UnOp)
@@ -532,11 +541,19 @@ func c03Merge(c *eng.Ctx) {
 			denyStore = append(denyStore, st)
 		}
 	}
-	exDeny := `^0 < \(?φraw\{.*\}\.\(\*policy\.ACLPermissions\)\.CapabilitiesBitmap & ` + deny + `\)?$`
-	pcDeny := `^0 < \(?\(?.*\.Paths\[.*\]\.Permissions\.CapabilitiesBitmap\)? & ` + deny + `\)?$`
+	// the deny-bit test may be spelled (x & deny) > 0 or (x & deny) != 0: both forms count
+	exOperand := `φraw\{.*\}\.\(\*policy\.ACLPermissions\)\.CapabilitiesBitmap`
+	pcOperand := `\(?.*\.Paths\[.*\]\.Permissions\.CapabilitiesBitmap\)?`
+	denyEdges := func(operand string, set bool) []eng.Edge {
+		return append(eng.CondEdges(f, `^0 < \(?`+operand+` & `+deny+`\)?$`, set),
+			eng.CondEdges(f, `^\(?`+operand+` & `+deny+`\)? == 0$`, !set)...)
+	}
+	denyGuard := func(what, operand string, set bool) eng.Guard {
+		return eng.Guard{Desc: fmt.Sprintf("[%s has the deny bit]=%v", what, set), Edges: denyEdges(operand, set)}
+	}
 	if c.Floor(f, "bitmap union store", len(union), 1) {
-		c.Cut(f, "existing |= new", union, eng.G(f, exDeny, false), nil)
-		c.Cut(f, "existing |= new", union, eng.G(f, pcDeny, false), nil)
+		c.Cut(f, "existing |= new", union, denyGuard("accumulated bitmap", exOperand, false), nil)
+		c.Cut(f, "existing |= new", union, denyGuard("new rule's bitmap", pcOperand, false), nil)
 		for _, st := range union {
 			s := eng.ExprDeep(st.(*ssa.Store).Val)
 			if strings.Contains(s, ".Paths[") && strings.Contains(s, ".Permissions.CapabilitiesBitmap") {
@@ -547,11 +564,11 @@ func c03Merge(c *eng.Ctx) {
 		}
 	}
 	if c.Floor(f, "deny store", len(denyStore), 1) {
-		c.Cut(f, "existing = deny", denyStore, eng.G(f, pcDeny, true), nil)
+		c.Cut(f, "existing = deny", denyStore, denyGuard("new rule's bitmap", pcOperand, true), nil)
 	}
 	// existing deny: no store into the existing permissions at all on that edge
 	c.Clause("R4", "C03.3")
-	ed := eng.CondEdges(f, exDeny, true)
+	ed := denyEdges(exOperand, true)
 	if len(ed) == 0 {
 		c.Violation(f, "sticky deny", f.Pos(), "NewACL no longer tests whether the accumulated permissions already deny", nil)
 	} else {
@@ -568,7 +585,7 @@ func c03Merge(c *eng.Ctx) {
 	}
 	// new deny: parameter maps are dropped
 	c.Clause("R4", "C03.3")
-	pd := eng.CondEdges(f, pcDeny, true)
+	pd := denyEdges(pcOperand, true)
 	for _, fld := range []string{"AllowedParameters", "DeniedParameters"} {
 		var nils []ssa.Instruction
 		for _, st := range eng.Stores(f, `\.\(\*policy\.ACLPermissions\)\.`+fld+`$`) {
